@@ -25,7 +25,7 @@ const c12Block = 625 // prefixes per case (5^4)
 func (e *C12) ID() string    { return "C12" }
 func (e *C12) Level() string { return "exploration" }
 func (e *C12) Rule() string {
-	return "section A (exhaustive): every prefix over the signature alphabet {I, M, *, 0x00, other} of length 0..7 (quick) / 0..10 (thorough), followed by an II or MM header with a random first-IFD offset and >= 28 further bytes, searched through a *bufio.Reader (sizes 32, 33, 64, 4096) and through a plain reader; section B: random prefixes up to 16 KiB built from alphabet runs and random bytes, with the signature placed at every offset 4060..4100 and 8150..8200 (buffer refill boundaries), streams without any signature, and streams whose only signature has fewer than 28 bytes after it. section C (exhaustive): every single-byte variation of II*\\0 and MM\\0* as a near miss in front of a real header and in a stream without one; section D: streams of 64 KiB to 3 MiB that start like a HEIF / JPEG / RW2 / CR3 file or with random bytes, the signature behind them; the image-type argument is varied (it labels the result and must not steer the search). Oracle: a naive search of the same bytes in the harness gives the first signature index; the reported TiffHeaderOffset, byte order and FirstIfdOffset must match it, the bufio.Reader must afterwards stand exactly on the reported signature - and, for a quarter of the streams, still do so after two overlapping searches on an unrelated stream (the second started from inside a Read of the first) - and ErrNoExif is returned exactly when no signature has 28 bytes after it. Non-trivial: the prefix contains a proper partial signature; distinct = distinct (prefix, header) for section A, (offset, buffer size) for B."
+	return "section A (exhaustive): every prefix over the signature alphabet {I, M, *, 0x00, other} of length 0..7 (quick) / 0..10 (thorough), followed by an II or MM header with a random first-IFD offset (a sixth of them 0, 1, 7, 8, 2^31, 2^32-1 or signature-like values) and >= 28 further bytes, searched through a *bufio.Reader (sizes 32, 33, 64, 4096) and through a plain reader; section B: random prefixes up to 16 KiB built from alphabet runs and random bytes, with the signature placed at every offset 4060..4100 and 8150..8200 (buffer refill boundaries), streams without any signature, and streams whose only signature has fewer than 28 bytes after it. section C (exhaustive): every single-byte variation of II*\\0 and MM\\0* as a near miss in front of a real header and in a stream without one; section D: streams of 64 KiB to 3 MiB that start like a HEIF / JPEG / RW2 / CR3 file or with random bytes, the signature behind them; the image-type argument is varied (it labels the result and must not steer the search). Oracle: a naive search of the same bytes in the harness gives the first signature index; the reported TiffHeaderOffset, byte order and FirstIfdOffset must match it, the bufio.Reader must afterwards stand exactly on the reported signature - and, for a quarter of the streams, still do so after two overlapping searches on an unrelated stream (the second started from inside a Read of the first) - and ErrNoExif is returned exactly when no signature has 28 bytes after it. Non-trivial: the prefix contains a proper partial signature; distinct = distinct (prefix, header) for section A, (offset, buffer size) for B."
 }
 func (e *C12) Assumptions() []string {
 	return []string{"bufio.Reader arguments have a buffer of at least 32 bytes (the search peeks 32)"}
@@ -179,6 +179,11 @@ func (e *C12) Run(c *core.Ctx, idx int) {
 		off := r.U32()
 		if r.Bool() {
 			off = uint32(r.Range(8, 4000))
+		}
+		if r.Chance(1, 6) {
+			// the stored first-directory offset is a value like any other: its extremes are reported,
+			// not interpreted
+			off = uint32(r.Pick(0, 0, 1, 7, 8, 0xffffffff, 0x80000000, 0x2a, 0x4949, 0x4d4d))
 		}
 		if big {
 			copy(h, "MM\x00*")
